@@ -40,6 +40,18 @@ def run(prog):
                                 % (line, show(cond) if cond else "?"))
             out.append(inst("EE", "%s:loop-exit" % fn.npath, VIOLATION if errs else OK, fn, cs.line,
                             "; ".join(errs) if errs else "the only loop exit is the iterator's None"))
+            # the count is the enumerated sum on every path: no return bypasses the enumeration with a constant
+            from .dt import leaves
+            from .base import strip
+            mus = {("mu", hh, l) for (hh, l) in te.mu_init if hh == h}
+            errs2 = []
+            for alt in leaves(te.ret):
+                a = strip(alt)
+                if not any(x in mus for x in mir.subterms(a)):
+                    errs2.append("a path returns %s without enumerating the assignments (a brute-force count has no shortcut: "
+                                 "an empty clause makes it zero and free variables contribute their weight sums)" % show(a)[:50])
+            out.append(inst("EE", "%s:returns-enumerated-sum" % fn.npath, VIOLATION if errs2 else OK, fn, None,
+                            "; ".join(errs2) if errs2 else "every return value is the accumulated sum"))
     if n < 1:
         raise CheckerError("EE: no loop over AssignmentIter found (expected Cnf::wmc)")
     return out
